@@ -274,6 +274,50 @@ func c07Packets(w *World, wc *wireCtx, r *Report) {
 				if header == nil {
 					continue
 				}
+				// round 9: a way round the emitting call that is chosen by the packet's *content* (`if len(pkt.Fields) == 0 { continue }`):
+				// the packets that refer to the skipped one still name its type / call its routine
+				for lb := range loopBlocks {
+					cond := branchCond(lb)
+					if cond == nil || lb == header {
+						continue
+					}
+					domEmit := false
+					for _, eb := range emitBlocks {
+						if lb.Dominates(eb) && lb != eb {
+							domEmit = true
+						}
+					}
+					if !domEmit {
+						continue
+					}
+					for _, s := range lb.Succs {
+						reachesEmit := false
+						seenB := map[*ssa.BasicBlock]bool{header: true}
+						stack := []*ssa.BasicBlock{s}
+						for len(stack) > 0 {
+							x := stack[len(stack)-1]
+							stack = stack[:len(stack)-1]
+							if seenB[x] || !loopBlocks[x] {
+								continue
+							}
+							seenB[x] = true
+							for _, eb := range emitBlocks {
+								if eb == x {
+									reachesEmit = true
+								}
+							}
+							stack = append(stack, x.Succs...)
+						}
+						if reachesEmit {
+							continue
+						}
+						for _, member := range []string{"Fields", "FieldMap", "MatchFields", "LengthField"} {
+							if mentionsFieldThroughLen(cond, member, 0) {
+								bad = fmt.Sprintf("%s skips a declared packet depending on its content (a test of Packet.%s at %s leads round the emitter): the packets that refer to it still name what was not emitted", fnKey(fn), member, w.instrPos(lb.Instrs[len(lb.Instrs)-1]))
+							}
+						}
+					}
+				}
 				for _, p := range header.Preds {
 					if !loopBlocks[p] || !header.Dominates(p) {
 						continue
